@@ -128,7 +128,7 @@ def find_expander_table(fx, rep, rule, ref=None):
 
 def run(fx, rep):
     from .report import producer_rules
-    producer_rules(fx, rep, 'producer rules: macros expand around their operands (C04 R6/R9); re-binding a variable in a scope always writes (C11 R2/R4)', [('c04', 'C04', '^(R6/|R9/)'), ('c11', 'C11', '^(R2/|R4/)')], 15)
+    producer_rules(fx, rep, 'producer rules: macros expand around their operands (C04 R6/R9); re-binding a variable in a scope always writes (C11 R2/R4); ranging over a map binds its keys with kind and payload unchanged (C14 R7)', [('c04', 'C04', '^(R6/|R9/)'), ('c11', 'C11', '^(R2/|R4/)'), ('c14', 'C14', '^R7/')], 18)
     rep.rule('R1', 'macro templates equal the reference expansions; find_expander table; has() sets test')
     rep.rule('R2', 'fold loop: cond -> exit on false -> bind item -> step -> bind accumulator; result after the loop; errors abort; forward iteration')
     rep.rule('R3', '@not_strictly_false: Bool(b) -> b, anything else -> true')
